@@ -180,6 +180,10 @@ func c01Run(c *ev.Ctx) {
 		c01Rewrite(c)
 		return
 	}
+	if c.Index%12 == 2 {
+		c01NearCopies(c)
+		return
+	}
 	big := c.Index%40 == 17 // datasets of a MiB and more, several per file (see below)
 	sbv := []uint8{0, 2, 3}[r.Intn(3)]
 	nds := r.Range(1, 3)
@@ -486,6 +490,96 @@ func headB(x []byte, n int) []byte {
 	return x
 }
 
+// c01NearCopies: a chunked integer dataset whose chunks are near-copies of one another: the
+// same length and the same checksum (CRC-32, Adler-32, Fletcher-32, byte sums) as the chunk
+// before, an identical chunk, or one byte changed. Whatever the writer derives from a chunk's
+// bytes (a checksum, a hash, a "seen before" key) is the same for neighbours that differ.
+func c01NearCopies(c *ev.Ctx) {
+	r := c.R
+	sbv := []uint8{0, 2, 3}[r.Intn(3)]
+	k := []string{"i32", "u32", "i64", "u64", "i16", "u16", "u8", "i8"}[r.Intn(8)]
+	es := (&hx.Val{Kind: "[]" + k}).ElemSize()
+	chunkElems := r.Range(max(1, 8/es), 64)
+	nchunks := r.Range(2, 12)
+	rank2 := r.Bool()
+	prev := r.Bytes(chunkElems * es)
+	var all []byte
+	all = append(all, prev...)
+	kindsUsed := map[string]bool{}
+	for j := 1; j < nchunks; j++ {
+		sibs := c08Siblings(r, prev)
+		cur := prev
+		if len(sibs) > 0 {
+			sb := sibs[r.Intn(len(sibs))]
+			cur = sb.data
+			kindsUsed[sb.name] = true
+		}
+		all = append(all, cur...)
+		prev = cur
+	}
+	n := chunkElems * nchunks
+	v := hx.Val{Kind: "[]" + k}
+	for i := 0; i < n; i++ {
+		var u uint64
+		for b := 0; b < es; b++ {
+			u |= uint64(all[i*es+b]) << (8 * uint(b))
+		}
+		if k[0] == 'i' {
+			shift := uint(64 - 8*es)
+			v.I = append(v.I, int64(u<<shift)>>shift)
+		} else {
+			v.U = append(v.U, u)
+		}
+	}
+	op := hx.Op{K: "create_ds", Path: "/nc", DT: k, Dims: []uint64{uint64(n)}, Chunk: []uint64{uint64(chunkElems)}, Data: &v, Expect: "ok"}
+	if rank2 {
+		// chunk = one row
+		op.Dims, op.Chunk = []uint64{uint64(nchunks), uint64(chunkElems)}, []uint64{1, uint64(chunkElems)}
+	}
+	switch r.Intn(4) {
+	case 0:
+		op.Gzip = r.Range(1, 9)
+	case 1:
+		op.Fletcher = true
+	}
+	s := &hx.Script{SB: sbv, Ops: []hx.Op{op}}
+	path := filepath.Join(c.Dir, "c01nc.h5")
+	e := hx.Run(path, s)
+	var kl []string
+	for kk := range kindsUsed {
+		kl = append(kl, kk)
+	}
+	sort.Strings(kl)
+	c.Case(fmt.Sprintf("near-copies|%s|chunks%d|%v|gzip%d|fl%v", k, nchunks, kl, op.Gzip, op.Fletcher), true)
+	c.Count("datasets_with_near-copy_chunks", 1)
+	wit := func(detail any) map[string]any {
+		return map[string]any{"sb": sbv, "kind": k, "dims": op.Dims, "chunk": op.Chunk, "sibling_kinds": kl, "gzip": op.Gzip, "fletcher": op.Fletcher, "detail": detail}
+	}
+	if len(e.Res) == 0 || !e.Res[0].OK() || !e.CloseRes.OK() {
+		c.Violation("near-copies:write-failed", wit(e.Res))
+		return
+	}
+	dp := dump.File(path, dump.Options{})
+	o := dp.Get("/nc")
+	if !dp.OpenRes.OK() || o == nil || !hx.ReadableKinds[k] {
+		if !dp.OpenRes.OK() || o == nil {
+			c.Violation("near-copies:missing", wit(dp.OpenRes))
+		}
+		return
+	}
+	want := v.AsFloat64Bits()
+	if !o.ReadRes.OK() || len(o.Read) != len(want) {
+		c.Violation("near-copies:read-error", wit(o.ReadRes))
+		return
+	}
+	for j := range want {
+		if o.Read[j] != want[j] {
+			c.Violation("near-copies:values", wit(fmt.Sprintf("element %d (chunk %d): read %016x, written %016x", j, j/chunkElems, o.Read[j], want[j])))
+			return
+		}
+	}
+}
+
 // c01Rewrite: one numeric dataset is written twice (same session, or a second session through
 // OpenDataset); what counts is the data written last. The leg enumerates the byte size around
 // 64 KiB, the layout, and the styles of the first and of the last data.
@@ -611,7 +705,7 @@ func c01Rewrite(c *ev.Ctx) {
 var C01 = &ev.Property{
 	ID:    "C01",
 	Level: "exploration",
-	Rule: "each case writes a file (superblock 0/2/3) with 1-3 datasets through the public API: element type from {10 numeric kinds, fixed strings, arrays, enums, opaque, object references, compound}, rank 1-4, extents from {1,2,3,4,5,7,8,9,11,13,16,17,31,32,64, random}, contiguous or chunked (whole extent, non-dividing chunk, many chunks per dimension, chunk of one element, random; numeric ones optionally filtered) and data from {zeros, extremes incl. NaN payloads / >2^31 / >2^63, ramp, random}; after Close and a fresh Open the monitor checks path, kind, shape, datatype class/size/sign and every typed read (Read, ReadStrings, ReadCompound) against the written values, and that reads without a meaning for the type report errors. Every sixth case writes one numeric dataset twice (in the same session, or in a later session through OpenDataset), enumerating byte size {small, 64 KiB less one element, 64 KiB, above} x layout x style of the first and of the last data; the last data written must be read. One case in forty writes two or three datasets of 1-2 MiB into one file (numeric, then fixed strings much shorter than their element size, then numeric). Every numeric Read is repeated after the caller has overwritten the first result. " +
+	Rule: "each case writes a file (superblock 0/2/3) with 1-3 datasets through the public API: element type from {10 numeric kinds, fixed strings, arrays, enums, opaque, object references, compound}, rank 1-4, extents from {1,2,3,4,5,7,8,9,11,13,16,17,31,32,64, random}, contiguous or chunked (whole extent, non-dividing chunk, many chunks per dimension, chunk of one element, random; numeric ones optionally filtered) and data from {zeros, extremes incl. NaN payloads / >2^31 / >2^63, ramp, random}; after Close and a fresh Open the monitor checks path, kind, shape, datatype class/size/sign and every typed read (Read, ReadStrings, ReadCompound) against the written values, and that reads without a meaning for the type report errors. Every sixth case writes one numeric dataset twice (in the same session, or in a later session through OpenDataset), enumerating byte size {small, 64 KiB less one element, 64 KiB, above} x layout x style of the first and of the last data; the last data written must be read. One case in twelve writes a chunked integer dataset whose chunks are near-copies of their predecessors (same length and same CRC-32 / Adler-32 / Fletcher-32, identical, one byte changed). One case in forty writes two or three datasets of 1-2 MiB into one file (numeric, then fixed strings much shorter than their element size, then numeric). Every numeric Read is repeated after the caller has overwritten the first result. " +
 		"distinct = (superblock, layout class, type family, rank, size bucket, data style); every written dataset is non-trivial.",
 	Assumptions: []string{
 		"expected numeric values use the reader's documented widening to float64 computed by the same Go conversions",
